@@ -1063,3 +1063,112 @@ save_file_str = REG.add(Contract(
            "write_file.flush": Abstract(sort=None), "os.fsync": Abstract(sort=None)},
     with_handler=plain_with,
 ))
+
+
+# --------------------------------------------------------------------------------------
+# FileSaver._save_chunk / _close: chunk files go into the temporary directory; the directory gets its final name last (C04, C03)
+# --------------------------------------------------------------------------------------
+def _fs_save_file(eng, args, kw, st, fr, k, node):
+    """strax.save_file(fn, data=..., compressor=...) called directly (serial saving)"""
+    g = dict(st.ghost)
+    g["file_written"] = z3.And(eng.to_v(args[0]) == eng.to_v(st.env["fn"]) if args else z3.BoolVal(False),
+                               eng.to_v(kw.get("data", PNONE)) == eng.to_v(st.env["#entry_data"]),
+                               eng.to_v(kw.get("compressor", PNONE)) == z3.Function("getitem", V, V, V)(
+                                   eng.to_v(st.heap[st.env["self"].base]["md"]), strv("compressor")))
+    size = eng.fresh("size_written", "V")
+    g["size"] = size
+    fr.on_raise(Exc("Any", Opq(eng.fresh("io_exc", "V"))), st)
+    return k(Opq(size), St(st.env, st.heap, st.pc, g))
+
+
+def _fs_submit(eng, args, kw, st, fr, k, node):
+    """executor.submit(strax.save_file, fn, data=..., compressor=...)"""
+    g = dict(st.ghost)
+    from pyvc.engine import Named
+    is_save = isinstance(args[0], Named) and args[0].name.split(".")[-1] == "save_file"
+    g["file_written"] = z3.And(z3.BoolVal(bool(is_save)), eng.to_v(args[1]) == eng.to_v(st.env["fn"]) if len(args) > 1 else z3.BoolVal(False),
+                               eng.to_v(kw.get("data", PNONE)) == eng.to_v(st.env["#entry_data"]),
+                               eng.to_v(kw.get("compressor", PNONE)) == z3.Function("getitem", V, V, V)(
+                                   eng.to_v(st.heap[st.env["self"].base]["md"]), strv("compressor")))
+    fut = eng.fresh("write_future", "V")
+    g["future"] = fut
+    return k(Opq(fut), St(st.env, st.heap, st.pc, g))
+
+
+def _fs_join(eng, args, kw, st, fr, k, node):
+    return k(Opq(z3.Function("fn:path_join", V, V, V)(eng.to_v(args[0]), eng.to_v(args[1]))), st)
+
+
+def _fsc_setup(eng, st):
+    env = dict(st.env)
+    env["#entry_data"] = st.env["data"]
+    return St(env, st.heap, st.pc, st.ghost)
+
+
+def _fsc_ens(S, a, r):
+    g = a.ghost
+    fn_ok = S.eq(a.local.fn, z3.Function("fn:path_join", V, V, V)(S.v(a.self.tempdirname), S.v(a.local.filename)))
+    out = [("the chunk file is written - directly or through the executor - with this chunk's data, the saver's compressor, into the "
+            "TEMPORARY directory under the chunk's file name", S.And(g.file_written, fn_ok))]
+    if isinstance(r, tuple) and len(r) == 2 and isinstance(r[0], dict):
+        info, fut = r
+        out.append(("the file name is reported for the chunk's metadata", S.b("filename" in info) if True else S.true))
+        serial = S.is_none(a.executor)
+        out.append(("saving serially, the size save_file reported is recorded as filesize and there is nothing to wait for; with an "
+                     "executor the pending write is handed back",
+                    S.If(serial, S.And(S.b("filesize" in info), S.eq(info.get("filesize", 0), g.size) if "filesize" in info else S.false,
+                                       S.is_none(fut)),
+                         S.And(S.b("filesize" not in info), S.eq(fut, g.future)))))
+    else:
+        out.append(("the result is (chunk info, pending write or None)", S.false))
+    return out
+
+
+filesaver_save_chunk = REG.add(Contract(
+    FS, "FileSaver._save_chunk",
+    params=dict(self=FILESAVER, data="V", chunk_info="V", executor="V"),
+    setup=_fsc_setup,
+    ensures=_fsc_ens, raises={"Any": lambda S, a: S.true},
+    ghost={"file_written": z3.BoolVal(False), "size": z3.Const("no_size", V), "future": z3.Const("no_future", V)},
+    calls={"self._chunk_filename": Abstract(pure=True), "os.path.join": _fs_join, "strax.save_file": _fs_save_file,
+           "executor.submit": _fs_submit},
+    consts={"strax.save_file": __import__("pyvc.engine", fromlist=["Named"]).Named("strax.save_file")},
+))
+
+
+def _fcl_exists(eng, args, kw, st, fr, k, node):
+    return k(EXISTS(eng.to_v(args[0])), st)
+
+
+def _fcl_flush(eng, args, kw, st, fr, k, node):
+    g = dict(st.ghost)
+    g["flushed"] = z3.BoolVal(True)
+    fr.on_raise(Exc("OSError"), st)
+    return k(PNONE, St(st.env, st.heap, st.pc, g))
+
+
+def _fcl_rename(eng, args, kw, st, fr, k, node):
+    selfc = st.heap[st.env["self"].base]
+    eng.oblige("rename-last", "the temporary directory is given its final name only after the complete metadata was written into it", st,
+               z3.And(st.ghost["flushed"], eng.to_v(args[0]) == eng.to_v(selfc["tempdirname"]), eng.to_v(args[1]) == eng.to_v(selfc["dirname"])), node)
+    g = dict(st.ghost)
+    g["renamed"] = z3.BoolVal(True)
+    g["flushed"] = z3.BoolVal(False)         # anything written afterwards would not be covered by a flush before the rename
+    fr.on_raise(Exc("OSError"), st)
+    return k(PNONE, St(st.env, st.heap, st.pc, g))
+
+
+filesaver_close = REG.add(Contract(
+    FS, "FileSaver._close",
+    params=dict(self=FILESAVER),
+    ensures=lambda S, a, r: [("on normal completion the data carries its final name, and the rename was the last step", a.ghost.renamed),
+                             ("a saver whose temporary directory is gone does not finish normally", EXISTS(S.v(a.self.tempdirname)))],
+    raises={"RuntimeError": lambda S, a: S.Not(EXISTS(S.v(a.self.tempdirname))), "OSError": lambda S, a: S.true, "Any": lambda S, a: S.true},
+    ghost={"flushed": z3.BoolVal(False), "renamed": z3.BoolVal(False)},
+    calls={"os.path.exists": _fcl_exists, "glob.glob": Abstract(pure=True), "sorted": Abstract(pure=True), "open": Abstract(may_raise=["OSError"]),
+           "json.load": Abstract(may_raise=["Any"]), "os.remove": Abstract(sort=None, may_raise=["OSError"]),
+           "self._flush_metadata": _fcl_flush, "os.rename": _fcl_rename, ".append": Abstract(sort=None)},
+    with_handler=plain_with,
+    loops={1: Loop(lambda S, a: [("nothing renamed yet", S.Not(a.ghost.renamed))])},
+    loop_ghost={1: []},
+))
